@@ -55,7 +55,7 @@ VARIANTS_THOROUGH = VARIANTS_QUICK + [
 
 
 def plan(tier):
-    return {"ncases": 84 if tier == "quick" else 700, "budget_s": 100 if tier == "quick" else 1500}
+    return {"ncases": 64 if tier == "quick" else 700, "budget_s": 100 if tier == "quick" else 1500}
 
 
 def gen_scenario(rng, idx):
@@ -82,6 +82,9 @@ def gen_scenario(rng, idx):
         elif kind == "list":
             prog, g = gen.list_program(rng)
             prog = {k: v for k, v in prog.items() if not k.startswith("_")}
+            if any(fd["k"] == "list" and fd.get("rsz") and fd.get("ek") == "obj" for fd in prog["classes"]["T"]["fields"]):
+                # the exposed length of a random-size list of objects cannot be put back by the user before a replay
+                continue
         elif kind == "soft":
             prog, g = gen.soft_program(rng, max_bits=12)
             if prog is None:
